@@ -1058,7 +1058,12 @@ def asan_run(ck, cases, rundir, limit=200):
     ck.cov["asan"] = "%d histories under ASan+UBSan, %d aborted by the sanitizer" % (len(sel), len(crashes))
     for k, rc, err in crashes:
         c = sel[k] if k < len(sel) else {}
-        if c and blocks.get(k) and user_case(ck, k, c, blocks[k], {}, None, replay_of, []):
+        diverged = False
+        try:
+            diverged = bool(c and blocks.get(k) and user_case(ck, k, c, blocks[k], {}, None, replay_of, []))
+        except (KeyError, IndexError, ValueError):
+            pass               # the last line of an aborted process may be cut anywhere
+        if diverged:
             ck.count("asan: abort later in a history that had already diverged (attributed to the reported defect)")
             continue
         m = re.search(r"ERROR: AddressSanitizer: (\S+)", err)
@@ -1327,7 +1332,7 @@ def user_case(ck, k, c, ls, mblocks, strip, replay_of, crash):
             stopped = True
             break
         # solutions
-        if "AS" in s and "BS" in s:
+        if "AS" in s and "BS" in s and "status=" in s["AS"] and "status=" in s["BS"] and "hassol=" in s["BS"]:
             lp = user_lp_of(fa)
             sa, sb = parse_fields(s["AS"]), parse_fields(s["BS"])
             ck.count("solve:A=%s B=%s" % (sa["status"], sb["status"]))
